@@ -110,6 +110,10 @@ func (f *FilterType) SetDataForFunction(tagType EEBusTagTypeType, fct FunctionTy
 		}
 
 		dataV := reflect.ValueOf(data)
+		// data of another type can not be set for this function
+		if !dataV.Type().ConvertibleTo(ff.Type()) {
+			return
+		}
 		dataC := dataV.Convert(ff.Type())
 		ff.Set(dataC)
 		return
@@ -223,6 +227,10 @@ func (cmd *CmdType) SetDataForFunction(fct FunctionType, data any) {
 		}
 
 		dataV := reflect.ValueOf(data)
+		// data of another type can not be set for this function
+		if !dataV.Type().ConvertibleTo(ff.Type()) {
+			return
+		}
 		dataC := dataV.Convert(ff.Type())
 		ff.Set(dataC)
 		return
